@@ -153,6 +153,30 @@ func checkC12(ctx *Ctx) {
 			}
 		}
 	}
+	// (j) commands that echo names (keys, fields, members, elements) back: hostile names must come back well framed
+	if ctx.Mine(3) {
+		ctx.SetCurrent("C12 name echo")
+		c, err := Dial(srv.port)
+		if err != nil {
+			ctx.Inconclusive("dial")
+			return
+		}
+		for ni, nm := range []string{"cr\r\nlf", "\r\n", "+OK", "$5", "*2\r\n$1\r\na", "nul\x00x", "sp ace", "-ERR x\r\n", ":1\r\n", strings.Repeat("N", 1500)} {
+			cmds := [][]string{{"SELECT", "7"}, {"FLUSHDB"},
+				{"SET", nm, "v"}, {"RANDOMKEY"}, {"KEYS", "*"}, {"TYPE", nm}, {"RENAME", nm, nm + "2"}, {"RANDOMKEY"}, {"DEL", nm + "2"},
+				{"HSET", "h", nm, nm}, {"HKEYS", "h"}, {"HVALS", "h"}, {"HGETALL", "h"}, {"HRANDFIELD", "h", "1", "WITHVALUES"}, {"HGET", "h", nm}, {"HMGET", "h", nm},
+				{"SADD", "s", nm}, {"SMEMBERS", "s"}, {"SRANDMEMBER", "s"}, {"SRANDMEMBER", "s", "2"}, {"SUNION", "s", "s"}, {"SPOP", "s"},
+				{"ZADD", "z", "1", nm}, {"ZRANGE", "z", "0", "-1", "WITHSCORES"}, {"ZRANDMEMBER", "z", "1", "WITHSCORES"}, {"ZRANGEBYLEX", "z", "-", "+"}, {"ZPOPMIN", "z"},
+				{"RPUSH", "l", nm, nm}, {"LRANGE", "l", "0", "-1"}, {"LINDEX", "l", "0"}, {"LPOP", "l"}, {"RPOP", "l", "1"},
+				{"SET", "k", nm}, {"GET", "k"}, {"GETRANGE", "k", "0", "-1"}, {"GETDEL", "k"}, {"ECHO", nm}, {"PING", nm},
+				{"PUBSUB", "CHANNELS", nm}, {"PUBSUB", "NUMSUB", nm}, {"SELECT", "0"}}
+			if !c12Exchange(ctx, srv, &c, "name-echo", cmds, nil, 7000+ni) || ctx.NReports() >= 4 {
+				c.Close()
+				return
+			}
+		}
+		c.Close()
+	}
 	// (i) reply sizes around the boundaries of the server's write chunks (1 KiB) and read buffer
 	{
 		var sizes []int
